@@ -136,6 +136,11 @@
 mod checker;
 mod has_discoveries;
 mod job_market;
+/// Hooks for the verification machinery (only with `--cfg getong_stateright_verif`).
+#[cfg(getong_stateright_verif)]
+pub mod verif {
+    pub use crate::job_market::verif::*;
+}
 pub mod report;
 use std::fmt::Debug;
 use std::hash::{Hash, Hasher};
